@@ -5,6 +5,23 @@ import json, os, re
 ROOT = '/verif'
 m = json.load(open(f'{ROOT}/mutants/matrix.json'))
 NOTES = {
+ 'C01g': 'decided by C14 (the change is in RiverWrapper): an online river model that learns between two evaluations of the same input was added there (the wrapper must report the CURRENT prediction); C01 drives pure test models',
+ 'C02g': 'first missed: the imputer spy was truthy; it now defines __len__ returning 0 (a user imputer may be falsy when the explainer is built - the library must test `is None`)',
+ 'C04g': 'first missed: observations were dense dicts; BatchSage (both modes) on sparse collections.defaultdict observations (absent feature = 0) added, compared with the dense equivalent',
+ 'C05g': 'decided by C07 (the change is in IntervalStorage: unlabelled arrivals mixed into a labelled stream were already driven there); C05 uses labelled streams',
+ 'C06g': 'first missed: stored rows were complete plain dicts; stored rows given as sparse defaultdicts added (a lookup must not insert the key into the stored object)',
+ 'C07g': 'first missed: storages were never copied; checkpoint / restore configs added (deep copy or pickle round trip after t_f updates, the stream continues on the copy, the original must not change any more)',
+ 'C08g': 'first missed: only the library classes themselves were driven; a user subclass whose get_data returns copies of the lists added to C08 and C09 (and a deep-copy continuation)',
+ 'C09g': 'first missed: same checkpoint / restore family (C07 catches it too); in C09 the copy is taken before the reservoir is full and the law must hold for the copy',
+ 'C10g': 'first missed: only the library classes themselves were driven; user subclasses (one overriding update and delegating with super().update(), one overriding nothing) added',
+ 'C13g': 'first missed: only the metrics shipped with river were discovered; user subclasses with sklearn-style __call__ sugar (callable AND a Metric) added to the discovered set',
+ 'C14g': 'first missed: batches were only driven with three feature names; batches with one and two names (1-3 rows) added',
+ 'C15g': 'decided by C06 (same mutation as C06g, written independently); C15 drives complete observations',
+ 'C17g': 'first missed: injected faults were Exception subclasses (or StopIteration); a KeyboardInterrupt subclass was added as a third fault class - a caller that catches it and resumes must find the estimates untouched',
+ 'C18g': 'NOT caught: needs a single-value river metric as loss, a model returning {label: score} with a NaN label, an exact tie of the top scores and two NaN objects at different positions of a set. Identity-hashed labels are not part of the C18 cells (limitation, section 7)',
+ 'C19g': 'first missed: the probe enumerated three of the four flag combinations; use_storage=True with direct_predict_numeric=True added',
+ 'C20g': 'first a harness error (complex std crashed the oracle; now reported), then: long streams continue on a pickle round trip after n/3 values and on a deep copy after 2n/3',
+ 'pfi_skips_falsy_feature_names': 'written after wave g: the feature-name sets now contain the falsy names 0, 0.0 and the empty string',
  'C01f': 'first missed: all observations of a stream had the same keys in the same order. Per-observation shapes were added to the shared stream driver (reversed key order with a model that reads by position; an optional context key the model reads with a default) and a model-input-shape oracle to C02/C03',
  'C02f': 'NOT caught, by design: judged not to violate the properties as stated (algebraically identical update; within the forward-error bound of a standard evaluation of the recurrence; refactoring R10 uses the same form for alpha < 1/2) - see seeded/C02f/meta.json',
  'C03f': 'first missed: model outputs were of order one; multi-label outputs scaled by 1e-10 added to C03, all values scaled by 1e-10 to C12',
